@@ -89,6 +89,19 @@ class CallMixin:
     def e_ListComp(self, e, env, k):
         return self.comprehension(e.elt, e.generators, env, k)
 
+    def e_DictComp(self, e, env, k):
+        # {key: value for x in it}: the pairs in order, later entries overwrite earlier ones with the same key
+        pair = ast.Tuple(elts=[e.key, e.value], ctx=ast.Load())
+        ast.copy_location(pair, e)
+
+        def fin(c, t):
+            t = resolve(t)
+            te = resolve(t.elem)
+            if not (isinstance(t, TList) and isinstance(te, TTuple) and len(te.elems) == 2):
+                raise Unsupported("dictionary comprehension " + src(e))
+            return k("(Py.dictOfPairs {})".format(c), TDict(te.elems[0], te.elems[1]))
+        return self.comprehension(pair, e.generators, env, fin)
+
     def e_GeneratorExp(self, e, env, k):
         # a generator is the list of what it yields (laziness is not modelled: see notes/translator.md)
         return self.comprehension(e.elt, e.generators, env, k)
